@@ -36,6 +36,11 @@ func init() {
 				rf := elin.CheckField(run, p, "LIN")
 				rs := elin.CheckScalarPack(run, p, "LIN")
 				rr := elin.CheckRecodings(run, p, "LIN")
+				if id == "purego" && os.Getenv("VOI_ELIN_NOLATTICE") == "" {
+					// internal/lattice is configuration-independent: purego here, amd64 below
+					rl := elin.CheckLattice(run, p, "LAT")
+					stats["lattice/"+id] = map[string]int{"functions": rl.Functions, "obligations": rl.Obligations, "discharged": rl.Discharged}
+				}
 				stats[id] = map[string]any{
 					"field":     map[string]int{"functions": rf.Functions, "obligations": rf.Obligations, "discharged": rf.Discharged},
 					"scalar":    map[string]int{"functions": rs.Functions, "obligations": rs.Obligations, "discharged": rs.Discharged},
@@ -44,6 +49,14 @@ func init() {
 				c.Drop(id)
 			}
 			runtime.GC()
+		}
+		run.NotDecided = append(run.NotDecided, elin.LatticeNotDecided...)
+		if os.Getenv("VOI_ELIN_NOLATTICE") == "" && os.Getenv("VOI_ELIN_CONFIGS") == "" {
+			if p := c.Prog("amd64"); p != nil {
+				rl := elin.CheckLattice(run, p, "LAT")
+				stats["lattice/amd64"] = map[string]int{"functions": rl.Functions, "obligations": rl.Obligations, "discharged": rl.Discharged}
+				c.Drop("amd64")
+			}
 		}
 		run.Extra["elin"] = stats
 		run.Extra["bounds"] = map[string]any{"inlining_depth": elin.MaxDepth, "instructions_per_run": elin.MaxSteps}
